@@ -23,7 +23,7 @@ TInit == /\ hi \in 1..Len(Trace) /\ j = 1
          /\ dataVer = [p \in 1..Trace[hi].np |-> 1] /\ tplVer = 1
          /\ files = [p \in 1..Trace[hi].np |-> [k \in KS |-> Absent]]
 Count(s, x) == Cardinality({i \in 1..Len(s) : s[i] = x})
-Report(name, p, cond) == cond \/ PrintT(<<"BAD", hi, j, name, p>>)
+Report(name, p, cond) == IF cond THEN TRUE ELSE PrintT(<<"BAD", hi, j, name, p>>)
 NoOverwrite(s) == s.m1 # "overwrite" /\ s.m2 # "overwrite" /\ ~s.lo /\ ~s.po
 Judge(e, dv, tv, pre) ==
   /\ Report("RunRaised", 0, e.exc = "")
